@@ -66,36 +66,21 @@ def run(repo: Repo, rep: Report, tier: str) -> None:
     dul = repo.mod("dul")
 
     # ---- recv-bounded ------------------------------------------------------------------
-    co = repo.func("transport", "AssociationSocket.connect")
-    cfg = CFG(co, body=body_nodoc(co), local_exc_only=True)
-    cs = repo.func("transport", "AssociationSocket._create_socket")
-    init_calls = [c for c in walk_no_nested(cs) if isinstance(c, ast.Call) and isinstance(c.func, ast.Attribute) and c.func.attr == "settimeout"]
-    init = classify_timeout(init_calls[-1].args[0]) if init_calls else "none"
-
-    def transfer(n, st):
-        cls, connected = st
-        if n.kind == "stmt":
-            for c in calls_at(n):
-                if isinstance(c.func, ast.Attribute) and c.func.attr == "settimeout" and norm(c.func.value) == "self.socket" and c.args:
-                    other = {l for _, l in n.succ if l != "exc"}
-                    return [((classify_timeout(c.args[0]), connected), other), (st, {"exc"})]
-                if norm(c.func) == "self.socket.connect":
-                    other = {l for _, l in n.succ if l != "exc"}
-                    return [((cls, True), other), (st, {"exc"})]
-        return [(st, {l for _, l in n.succ})]
-
-    ins2, pred = typestate(cfg, (init, False), transfer)
-    ins = {k: {s_[0] for s_ in v} for k, v in ins2.items()}
-    marks = [n for n in cfg.nodes if n.kind == "stmt" and norm(n.ast) == "self._is_connected = True"]
+    from ..sock_model import ConnectModel
+    cm = ConnectModel(repo)
+    co, cfg = cm.fn, cm.cfg
+    marks = cm.marks
     rep.need(len(marks) == 1, "transport.connect: `self._is_connected = True` not found")
     # a TLS handshake on an already connected socket talks to the peer: it needs the connection timeout too
     for n in cfg.nodes:
         if n.kind == "stmt" and any(isinstance(c.func, ast.Attribute) and c.func.attr in ("wrap_socket", "do_handshake") for c in calls_at(n)):
-            sts = sorted(ins2.get(n.id, ()))
-            bad = [s_ for s_ in sts if s_[1] and s_[0] != "connection"]
-            rep.check(not bad, "event-waits", "transport.AssociationSocket.connect", n.ast, f"the TLS handshake runs on a connected socket whose timeout class is {[b[0] for b in bad]}: a peer that accepts the TCP connection and never answers the handshake blocks connect() - and AE.associate() behind it - for ever (wrap before connect(), or keep the connection timeout until the handshake is done)", mod=tr, node=n.ast)
-    states = sorted(ins.get(marks[0].id, ()))
-    rep.check(states == ["network"], "recv-bounded", "transport.AssociationSocket.connect", f"requestor socket timeout when marked open: {states}", "the requestor's connected socket does not carry the network timeout: a peer that stops part-way through a PDU and keeps the connection open leaves the provider thread in recv() for ever, and the association thread spinning in kill()", mod=tr, node=marks[0].ast)
+            bad = sorted({s_[0][0] for s_ in cm.ins.get(n.id, ()) if s_[0][1] and s_[0][0] != "connection" and not cm.unconfigured(s_[1])})
+            rep.check(not bad, "event-waits", "transport.AssociationSocket.connect", n.ast, f"the TLS handshake runs on a connected socket whose timeout class is {bad}: a peer that accepts the TCP connection and never answers the handshake blocks connect() - and AE.associate() behind it - for ever (wrap before connect(), or keep the connection timeout until the handshake is done)", mod=tr, node=n.ast)
+    states = cm.classes(marks[0])
+    rep.need(bool(states), "transport.connect: no state reaches `self._is_connected = True`")
+    for cls_ in states:
+        # one instance per timeout class that can be on the socket when it is marked open
+        rep.check(cls_ == "network", "recv-bounded", "transport.AssociationSocket.connect", f"requestor socket timeout when marked open: ['{cls_}']", "the requestor's connected socket does not carry the network timeout: a peer that stops part-way through a PDU and keeps the connection open leaves the provider thread in recv() for ever, and the association thread spinning in kill()", mod=tr, node=marks[0].ast)
     # acceptor: the accepted socket must be given the network timeout somewhere on the path
     # get_request -> RequestHandler -> AssociationSocket(client_socket=...)
     ini = repo.func("transport", "AssociationSocket.__init__")
@@ -190,9 +175,10 @@ def run(repo: Repo, rep: Report, tier: str) -> None:
     tries = [t for t in walk_no_nested(co) if isinstance(t, ast.Try)]
     ok = len(tries) == 1 and any(norm(s) == "self._ready.set()" for s in tries[0].finalbody)
     rep.check(ok, "event-waits", "transport.AssociationSocket.connect", "finally: self._ready.set()", "the ACSE thread waits for the connection attempt without a timeout: whatever happens in connect() the event must be set", mod=tr, node=tries[0] if tries else co)
-    cn = [n for n in cfg.nodes if n.kind == "stmt" and any(norm(c.func) == "self.socket.connect" for c in calls_at(n))]
+    cn = cm.connects
     rep.need(len(cn) == 1, "transport.connect: socket.connect call not found")
-    st_conn = sorted(ins.get(cn[0].id, ()))
+    # on a path where the connection timeout is known to be None (not configured) there is nothing to run under
+    st_conn = sorted({s_[0][0] for s_ in cm.ins.get(cn[0].id, ()) if not cm.unconfigured(s_[1])})
     rep.check(st_conn == ["connection"], "event-waits", "transport.AssociationSocket.connect", f"socket timeout during connect(): {st_conn}", "the TCP connection attempt must run under the configured connection timeout", mod=tr, node=cn[0].ast)
     # discharge: kill() sets the checkpoint (the reactor can always be woken locally)
     kl = repo.func("association", "Association.kill")
